@@ -83,6 +83,9 @@ pub fn record(args: &Args) -> i32 {
     for (label, bytes) in gen::sweep_streams(&mut rng, args.num("sweeps", 4) as usize, args.num("window", 40) as usize) {
         streams.push((label, bytes));
     }
+    for (label, bytes) in gen::frequent_symbol_streams(&mut rng) {
+        streams.push((label, bytes));
+    }
     for (label, bytes) in gen::window_edge_streams(&mut rng).into_iter().chain(gen::reshift_edge_streams(&mut rng, maxlen > 40000)) {
         streams.push((label, bytes));
     }
